@@ -1,5 +1,6 @@
 import ShroudVerif.Model.Lines
 import Driver.Codec
+import ShroudVerif.Gen.LineCfg
 namespace Driver
 open Shroud.Lines
 
@@ -34,6 +35,22 @@ def handleWof : List String → String
 /-- `lit <line>` -> the line as `_literal_lines` passes it on -/
 def handleLit : List String → String
   | [line] => encStr (protect (decStr line))
+  | _ => "bad-op"
+
+/-- `em <emitter> <C_line_length> <F_line_length> <indent> <spaces> <line>`: the emitter as its `__init__` configures it -/
+def handleEm : List String → String
+  | [e, cl, fl, ind, sp, line] =>
+    match emitterWrite Shroud.Gen.LineCfg.emitterLineCfg e.toNat! cl.toNat! fl.toNat! (decInt ind) (decStr sp) (decStr line) with
+    | some ls => "ok " ++ encStrs ls
+    | none => "no-config"
+  | _ => "bad-op"
+
+/-- `wcs <indent> <spaces> <cont> <line> <linelen>*`: the same logical line written repeatedly in one session with
+    varying line lengths; answers joined by `|` -/
+def handleWcs : List String → String
+  | ind :: sp :: cont :: line :: lls =>
+    "|".intercalate ((wcSession (lls.map fun ll =>
+      ({ linelen := ll.toNat!, indent := decInt ind, spaces := decStr sp }, decStr cont, decStr line))).map encStrs)
   | _ => "bad-op"
 
 end Driver
